@@ -692,4 +692,7 @@ WITNESSES = [
      "old": "\t\tif (group_node->group->status == RTR_MGR_ESTABLISHED) {", "new": "\t\tif (rtr_mgr_config_status_is_synced(group_node->group)) {"},
     {"id": "C15.w-stop-asks-the-state-setter-for-closed", "rule": "C15.R6", "file": "rtrlib/rtr/rtr.c",
      "old": "\t\trtr_socket->thread_id = 0;\n\t\trtr_socket->state = RTR_CLOSED;", "new": "\t\trtr_socket->thread_id = 0;\n\t\trtr_change_socket_state(rtr_socket, RTR_CLOSED);"},
+    {"id": "C15.w-best-group-looked-up-before-the-removal", "rule": "C15.R2", "file": MG,
+     "old": "\tgroup_node = remove_node->data;\n\tremove_group = group_node->group;\n\ttommy_list_remove_existing(&config->groups->list, remove_node);",
+     "new": "\tgroup_node = remove_node->data;\n\tremove_group = group_node->group;\n\tstruct rtr_mgr_group *first = rtr_mgr_get_first_group(config);\n\ttommy_list_remove_existing(&config->groups->list, remove_node);\n\tif (first->status == RTR_MGR_CLOSED && first != remove_group)\n\t\trtr_mgr_start_sockets(first);"},
 ]
